@@ -10,6 +10,7 @@ import (
 	"fmt"
 	"os"
 	"path/filepath"
+	"regexp"
 	"strconv"
 	"strings"
 	"unicode"
@@ -50,6 +51,7 @@ type FuncContract struct {
 	Witness    map[string]map[string]Expr // clause label -> existential variable -> witness term
 	Names      []string // declared parameter/result names for externs: (a, b) (r1, r2)
 	ResNames   []string
+	ImplOf     string // contract of an interface method cloned from this proved method contract (implements)
 }
 
 type GhostSet struct {
@@ -86,6 +88,15 @@ type Library struct {
 	AxPkg  map[*Clause]string
 	Files  []string
 	LemmaOpts map[string]*LemmaOpt
+	Impls  []implDirective
+}
+
+// implements <iface> by <concrete> recv <name> as <expr>: every method contract <concrete>.M (proved) is also the
+// contract of <iface>.M at interface call sites, for receivers whose dynamic type is the concrete one.
+type implDirective struct {
+	Iface, Concrete, Recv, As, Is string
+	File                         string
+	Line                         int
 }
 
 type LemmaOpt struct {
@@ -108,6 +119,54 @@ func (L *Library) loadAll(repo string, specDir string) error {
 	for _, f := range files {
 		if err := L.loadFile(f); err != nil {
 			return err
+		}
+	}
+	return L.expandImplements()
+}
+
+func (L *Library) expandImplements() error {
+	for _, d := range L.Impls {
+		re := regexp.MustCompile(`\b` + regexp.QuoteMeta(d.Recv) + `\b`)
+		for key, c := range L.Funcs {
+			if !strings.HasPrefix(key, d.Concrete+".") || len(c.Names) == 0 || c.Names[0] != d.Recv {
+				continue
+			}
+			m := key[len(d.Concrete)+1:]
+			if strings.Contains(m, "$") || m == "" || !unicode.IsUpper(rune(m[0])) {
+				continue
+			}
+			ik := d.Iface + "." + m
+			if _, dup := L.Funcs[ik]; dup {
+				continue
+			}
+			n := &FuncContract{Key: ik, Pkg: c.Pkg, Extern: true, Invariants: map[int][]*Clause{}, Nilable: c.Nilable, File: c.File, Line: c.Line,
+				Names: c.Names, ResNames: c.ResNames, Assigns: c.Assigns, HasAssigns: true, Allocates: true, Pure: c.Pure, Reveal: c.Reveal, Witness: c.Witness, ImplOf: key}
+			is, err := parseClause("IMPL: "+d.Is, d.File, d.Line)
+			if err != nil {
+				return err
+			}
+			n.Requires = append(n.Requires, is)
+			conv := func(cs []*Clause) ([]*Clause, error) {
+				var out []*Clause
+				for _, cl := range cs {
+					nc, err := parseClause(re.ReplaceAllString(cl.Text, "("+d.As+")"), cl.File, cl.Line)
+					if err != nil {
+						return nil, err
+					}
+					nc.Label = cl.Label
+					out = append(out, nc)
+				}
+				return out, nil
+			}
+			rq, err := conv(c.Requires)
+			if err != nil {
+				return err
+			}
+			n.Requires = append(n.Requires, rq...)
+			if n.Ensures, err = conv(c.Ensures); err != nil {
+				return err
+			}
+			L.Funcs[ik] = n
 		}
 	}
 	return nil
@@ -170,6 +229,13 @@ func (L *Library) loadFile(path string) error {
 		case "package":
 			pkg = strings.TrimSpace(rest)
 			cur = nil
+		case "implements":
+			// implements I by C recv r as <expr> when <expr>
+			m := regexp.MustCompile(`^(\S+) by (\S+) recv (\w+) as (.+) when (.+)$`).FindStringSubmatch(strings.TrimSpace(rest))
+			if m == nil {
+				return errf("implements I by C recv r as <expr> when <expr>")
+			}
+			L.Impls = append(L.Impls, implDirective{Iface: m[1], Concrete: m[2], Recv: m[3], As: m[4], Is: m[5], File: path, Line: ln})
 		case "func", "extern":
 			curLemma = ""
 			key, names, resnames, aliases, err := parseFuncHeader(rest)
